@@ -137,7 +137,7 @@ func (r *Report) sample(s interface{}) {
 	if b, err := json.Marshal(s); err == nil {
 		r.Distinct[string(b)] = true
 	}
-	if len(r.Samples) < 12 {
+	if len(r.Samples) < 24 {
 		r.Samples = append(r.Samples, s)
 	}
 }
